@@ -438,10 +438,18 @@ def monitor (m : Mon) (ws : List String) (impl : String) : Mon × List String :=
           | _, _ => []
         else []
       | _, _ => []
+  -- gc_worker's registration is never removed, whatever the request and the interface
+  let f4 : List String :=
+    match ws, im.table with
+    | "reset" :: _, _ => []
+    | _, some after =>
+      if C15.chkKept gcId m.table after then [] else
+        [s!"sig=C15.service-gcworker-registration-removed op={" ".intercalate ws} out={" ".intercalate im.out}"]
+    | _, none => []
   let m := match ws with
     | "reset" :: _ => { m with sum := {}, table := im.table.getD [], states := im.states, gargs := [] }
     | _ => { m with table := im.table.getD m.table, states := im.states }
-  (m, f1 ++ f2 ++ f3)
+  (m, f1 ++ f2 ++ f3 ++ f4)
 
 def step (d : DState) (opLine : String) (impl : String) : DState × StepOut :=
   let ws := words opLine
